@@ -15,7 +15,9 @@ TraceInit == l = 1 /\ total = 0 /\ phase = "idle"
 TInit == IsEvent("init") /\ Ev.key = 0 /\ total' = 0 /\ phase' = "absorbing" /\ Ev.ctr = 0 /\ Ev.buflen = 0
 TUpd == /\ IsEvent("upd") /\ phase = "absorbing" /\ total + Ev.n < 2147483647
         /\ total' = total + Ev.n /\ UNCHANGED phase
-        /\ IF Kind = "md" THEN Ev.ctr = total' /\ Ev.buflen = total' % B
+        /\ ("exact" \in DOMAIN Ev => Ev.exact)       \* counters reported in KiB are exact multiples
+        /\ IF "unit" \in DOMAIN Ev THEN Ev.ctr = total'          \* huge streams: everything in KiB, buffered amount not compared
+           ELSE IF Kind = "md" THEN Ev.ctr = total' /\ Ev.buflen = total' % B
                           ELSE Ev.ctr + Ev.buflen = total' /\ Ev.buflen <= 2 * B /\ (total' > 0 => Ev.buflen >= 1) /\ Ev.ctr % B = 0
 TFinal == IsEvent("final") /\ phase = "absorbing" /\ Ev.ret = 0 /\ Ev.same /\ Ev.total = total /\ phase' = "idle" /\ UNCHANGED total
 TraceNext == TInit \/ TUpd \/ TFinal
